@@ -109,3 +109,88 @@ Theorem C16_later_writes_independent : forall m m' sid addr bs sid' base n,
   slice (mem m' sid') base n = slice (mem m sid') base n.
 Proof. exact wrote_slice_other. Qed.
 Print Assumptions C16_later_writes_independent.
+
+(* ====================================================================================================
+   BEGIN block appended by the C17/C18 engineer (value-level machinery [den], coq/Value/CopyValue*.v):
+   [T2] copy_value -- the value a deep copy denotes.
+   Scope (stated in the theorems): cross-message copy (source in the read-only message of [world])
+   into a SINGLE-SEGMENT destination ([dstw D cap src rl]: every allocation appends to segment 0, every
+   pointer is placed near); source values in [cvdom]: every capability-free value -- structs of any section
+   sizes, nulls, void / 1,2,4,8-byte / bit lists, pointer lists and struct lists, nested to any depth.
+   Source pointers are as the reader hands them out: well formed (wf_ptr), word-aligned struct data
+   (aligned, caligned), composite lists behind a consistent tag word (ctag_ok) -- all three are theorems
+   about Segment.readPtr (readPtr_aligned, readPtr_caligned, readPtr_ctag).
+   NOT covered: multi-segment destinations (far / double-far placement), capabilities (the single-segment
+   view [dstw] has no capability table), list-member structs of 1/2/4-byte lists (never produced by a
+   whole-pointer copy).
+   ==================================================================================================== *)
+From CV Require Import Value.ValueEq Value.EqualM Value.Den Value.CanonMHeap Value.CanonMLoop Value.CanonMInd
+                       Value.CopyValue Value.CopyValueHeap Value.CopyValueDefs Value.CopyValueInd Value.CopyValueEq Value.CanonSpec Value.EqualCorrect.
+From CV Require Import Core.SafetyProofs.
+
+(* SetPtr / SetRoot / PointerList.Set of a pointer of another message: afterwards the slot reads
+   (Segment.readPtr, strict) as a pointer denoting exactly the source's value *)
+Theorem C16_copy_value_ptr : forall m f D cap rl a src v fc w',
+  msg_ok m -> CanonMLoop.hinv D -> 0 <= a -> a mod 8 = 0 -> a + 8 <= zlen D ->
+  wf_ptr m src -> aligned src -> caligned src -> ctag_ok m src -> den true m 0 [] src v -> cvdom v = true ->
+  write_ptr f true (dstw D cap m rl) 0 a InSrc src fc = Ok w' ->
+  exists D' cap' rl', w' = dstw D' cap' m rl' /\ CanonMLoop.hinv D' /\ (bytes_ok D -> bytes_ok D') /\ reads_as D' a v.
+Proof. exact copy_value_ptr. Qed.
+Print Assumptions C16_copy_value_ptr.
+
+(* copyStruct into an existing struct (List.SetStruct, Struct.CopyFrom; version skew in either
+   direction): the destination denotes the source's value resized to the destination's section sizes
+   (data words truncated / zero-extended, extra pointers dropped, missing pointers null) *)
+Theorem C16_copy_value_struct : forall m f D cap rl dst s ws vs A dn pn w',
+  msg_ok m -> CanonMLoop.hinv D -> dst_at dst A dn pn -> p_kind dst = KStruct -> 0 <= A -> A mod 8 = 0 ->
+  0 <= dn <= 65535 -> 0 <= pn < 65536 -> A + 8 * dn + 8 * pn <= zlen D ->
+  p_valid s = true -> p_kind s = KStruct -> wf_ptr m s -> aligned s ->
+  den true m 0 [] s (VStruct ws vs) -> forallb cvdom vs = true ->
+  copy_struct f true (dstw D cap m rl) dst InSrc s = Ok w' ->
+  exists D' cap' rl', w' = dstw D' cap' m rl' /\ CanonMLoop.hinv D' /\ (bytes_ok D -> bytes_ok D') /\
+    forall mid caps, den true [D'] mid caps dst (resize (VStruct ws vs) (Z.to_nat dn) (Z.to_nat pn)).
+Proof. exact copy_value_struct. Qed.
+Print Assumptions C16_copy_value_struct.
+
+(* the invariant behind both, for every fuel *)
+Theorem C16_copy_value_invariant : forall m, msg_ok m -> forall f, CopyValueDefs.P_wp m f /\ CopyValueDefs.P_cs m f.
+Proof. exact P_all. Qed.
+Print Assumptions C16_copy_value_invariant.
+
+(* version skew loses nothing that is not default: resizing to section sizes not smaller than the
+   truncated sizes gives an Equal value *)
+Theorem C16_resize_value_eq : forall ws ps dn pn,
+  (length (strip0 ws) <= dn)%nat -> (length (stripN ps) <= pn)%nat ->
+  value_eq (resize (VStruct ws ps) dn pn) (VStruct ws ps) = true.
+Proof. exact resize_value_eq. Qed.
+Print Assumptions C16_resize_value_eq.
+
+(* capnp.Equal(source, copy) = true (model equal_m, by C17_equal_m_correct); the copy keeps the
+   destination a segment of bytes (bytes_ok), so no hypothesis about the result is needed *)
+Theorem C16_copy_then_equal : forall m f D cap rl a src v fc w' c fx,
+  msg_ok m -> CanonMLoop.hinv D -> bytes_ok D -> 0 <= a -> a mod 8 = 0 -> a + 8 <= zlen D ->
+  wf_ptr m src -> aligned src -> caligned src -> ctag_ok m src -> den true m 0 [] src v -> cvdom v = true ->
+  write_ptr f true (dstw D cap m rl) 0 a InSrc src fc = Ok w' ->
+  cfg_strict c = true -> all_fixed fx ->
+  exists D' cap' rl' q, w' = dstw D' cap' m rl' /\
+    (exists dep rlx rlx', readPtr true [D'] rlx 0 D' a dep = (Ok q, rlx')) /\
+    (forall fuel st b st',
+       equal_m fuel c fx (mkEC m [] [D'] [] false) st src q = (EOk b, st') -> b = true).
+Proof. exact copy_then_equal. Qed.
+Print Assumptions C16_copy_then_equal.
+
+(* non-vacuity: a concrete source (struct with a byte list, a pointer list, a bit list and a struct list) and a
+   fresh destination satisfy every hypothesis and the copy succeeds *)
+Theorem C16_copy_value_nonvacuous :
+  CanonMLoop.hinv (repeat 0 8%nat) /\ wf_ptr msg_cv root_cv /\ aligned root_cv /\ caligned root_cv /\ ctag_ok msg_cv root_cv /\ p_valid root_cv = true /\
+  exists v w', den true msg_cv 0 [] root_cv v /\ cvdom v = true /\
+               write_ptr 20 true (dstw (repeat 0 8%nat) 1024 msg_cv 1000000) 0 0 InSrc root_cv false = Ok w'.
+Proof. exact copy_value_nonvacuous. Qed.
+Print Assumptions C16_copy_value_nonvacuous.
+
+(* the reader hands out pointers satisfying the side conditions above *)
+Theorem C16_readPtr_ctag : forall strict m rl sid s a dep q rl', msg_ok m -> is_seg m sid s -> 0 <= a -> a + 8 <= zlen s ->
+  readPtr strict m rl sid s a dep = (Ok q, rl') -> ctag_ok m q.
+Proof. exact readPtr_ctag. Qed.
+Print Assumptions C16_readPtr_ctag.
+(* ==================================================================================================== END block *)
